@@ -4,7 +4,7 @@ CONSTANTS Callers = {c1, c2, c3}
  MaxRot = 1
  MaxAtt = 2
  FreshKey = FALSE
- MaxJunk = 2
- Kinds = {"obj"}
+ MaxJunk = 1
+ Kinds = {"obj", "vec"}
  Dev = {}
 CHECK_DEADLOCK FALSE
